@@ -511,7 +511,7 @@ impl<'a> EbpfVmMbuff<'a> {
         };
         #[cfg(feature = "std")]
         {
-            self.jit = Some(jit::JitMemory::new(prog, &self.helpers, true, false)?);
+            self.jit = Some(jit::JitMemory::new(prog, &self.helpers, self.stack_usage.as_ref(), true, false)?);
         }
         #[cfg(not(feature = "std"))]
         {
@@ -526,6 +526,7 @@ impl<'a> EbpfVmMbuff<'a> {
                 prog,
                 exec_memory,
                 &self.helpers,
+                self.stack_usage.as_ref(),
                 true,
                 false,
             )?);
@@ -1140,7 +1141,7 @@ impl<'a> EbpfVmFixedMbuff<'a> {
         };
         #[cfg(feature = "std")]
         {
-            self.parent.jit = Some(jit::JitMemory::new(prog, &self.parent.helpers, true, true)?);
+            self.parent.jit = Some(jit::JitMemory::new(prog, &self.parent.helpers, self.parent.stack_usage.as_ref(), true, true)?);
         }
         #[cfg(not(feature = "std"))]
         {
@@ -1155,6 +1156,7 @@ impl<'a> EbpfVmFixedMbuff<'a> {
                 prog,
                 exec_memory,
                 &self.parent.helpers,
+                self.parent.stack_usage.as_ref(),
                 true,
                 true,
             )?);
@@ -1661,6 +1663,7 @@ impl<'a> EbpfVmRaw<'a> {
             self.parent.jit = Some(jit::JitMemory::new(
                 prog,
                 &self.parent.helpers,
+                self.parent.stack_usage.as_ref(),
                 false,
                 false,
             )?);
@@ -1678,6 +1681,7 @@ impl<'a> EbpfVmRaw<'a> {
                 prog,
                 exec_memory,
                 &self.parent.helpers,
+                self.parent.stack_usage.as_ref(),
                 false,
                 false,
             )?);
